@@ -332,6 +332,8 @@ def run(rep):
     throws_rule(rep, f)
     elemsize_rule(rep, f)
     adoption_rule(rep, f)
+    from . import C20
+    C20.cursor_rule(rep, "C01.f")
     diag.run(rep, f, "C01")
     rep.undecided += ["index arithmetic on input-derived values in the reader and the transcoders", "sufficiency of buffer growth steps",
                       "signed overflow and other undefined behaviour", "termination and the time bound under an entity-expansion limit",
